@@ -291,6 +291,57 @@ func runCloneCompleteness(c *core.Ctx) {
 					}
 				}
 				c.Check("clone-deep-copies-field", key, cf.PosStr(), good, why)
+				// the copy is unconditional: the only conditions it may depend on are nil/length tests of the field itself
+				condBad := ""
+				var stack []ast.Node
+				ast.Inspect(cf.Body, func(nd ast.Node) bool {
+					if nd == nil {
+						stack = stack[:len(stack)-1]
+						return true
+					}
+					stack = append(stack, nd)
+					as, ok := nd.(*ast.AssignStmt)
+					if !ok || len(as.Lhs) != len(as.Rhs) {
+						return true
+					}
+					hit := false
+					for _, l := range as.Lhs {
+						if se, ok := ast.Unparen(l).(*ast.SelectorExpr); ok && info.Uses[se.Sel] == fld {
+							hit = true
+						}
+					}
+					if !hit {
+						return true
+					}
+					for k := len(stack) - 2; k >= 0; k-- {
+						ifs, ok := stack[k].(*ast.IfStmt)
+						if !ok {
+							continue
+						}
+						// only the then-branch constrains; an else-branch assignment is conditional on the negation
+						var atoms []atomB
+						decompose(ifs.Cond, true, &atoms)
+						for _, a := range atoms {
+							if !mentionsField(info, a.x, fld) {
+								condBad = core.ExprStr(ifs.Cond)
+								continue
+							}
+							be, isB := ast.Unparen(a.x).(*ast.BinaryExpr)
+							if !isB {
+								condBad = core.ExprStr(ifs.Cond)
+								continue
+							}
+							if !isNilExpr(info, be.Y) {
+								if tv := info.Types[be.Y]; tv.Value == nil || tv.Value.String() != "0" {
+									condBad = core.ExprStr(ifs.Cond)
+								}
+							}
+						}
+					}
+					return true
+				})
+				c.Check("clone-deep-copies-field", key+"/unconditional", cf.PosStr(), condBad == "",
+					"the deep copy of "+key+" in "+cf.Name+" depends on `"+condBad+"`: for values where that does not hold the clone shares the field with the published value")
 			}
 		}
 		c.Floor("reference-holding fields", nFields, 12)
